@@ -249,6 +249,16 @@ fn compatible_pairs(max_rank: usize) -> Vec<(Vec<usize>, Vec<usize>)> {
     out
 }
 
+/// Div and Pow take a fast path when the right operand has a single element;
+/// that input class gets its own feature.
+fn binary_feature(op: &str, a: &[usize], b: &[usize], default: &'static str) -> &'static str {
+    if (op == "Div" || op == "Pow") && b.iter().product::<usize>() == 1 && b.len() > a.len() {
+        "single-element right operand with more dims than the left operand"
+    } else {
+        default
+    }
+}
+
 fn binary_family(e: &mut Vec<Entry>) {
     // (op, dtype, rank budget: 0 = small, 1 = large)
     let ops: Vec<(&'static str, i32, bool)> = vec![
@@ -300,7 +310,7 @@ fn binary_family(e: &mut Vec<Entry>) {
                         TIn::ints(nm, dt, s, &(0..c).map(|i| (i % 3) as i64 + 1).collect::<Vec<_>>())
                     }
                 };
-                sink(Case::new(&name, "dynamic operands", vec![n(op, &["a", "b"], &["y"])], vec![mk("a", &a), mk("b", &b)]));
+                sink(Case::new(&name, binary_feature(op, &a, &b, "dynamic operands"), vec![n(op, &["a", "b"], &["y"])], vec![mk("a", &a), mk("b", &b)]));
             }
         }));
     }
@@ -348,7 +358,7 @@ fn binary_family(e: &mut Vec<Entry>) {
                         };
                         sink(Case::new(
                             &name,
-                            if fl { "one constant operand, float" } else { "one constant operand, int" },
+                            binary_feature(op, &a, &b, if fl { "one constant operand, float" } else { "one constant operand, int" }),
                             vec![n(op, &["a", "b"], &["y"])],
                             vec![mk("a", &a, const_side == 0), mk("b", &b, const_side == 1)],
                         ));
@@ -594,7 +604,9 @@ fn arithmetic_chains(e: &mut Vec<Entry>) {
         }
     }));
     e.push(entry("constant folding float", |_, sink| {
-        let vals: Vec<f32> = vec![-3.0, -2.0, -1.0, 0.0, 1.0, 2.0, 3.0, 0.5, 2.5, 65536.0, 1073741824.0, -2147483648.0];
+        // small integral / non-integral values, the edge of f32's exact integer
+        // range (2^24) and values near the i32 limits
+        let vals: Vec<f32> = vec![-3.0, -2.0, -1.0, 0.0, 1.0, 2.0, 3.0, 0.5, 2.5, 4096.0, 65536.0, 16777215.0, 16777216.0, 1073741824.0, -2147483648.0];
         for op in ["Add", "Sub", "Mul", "Div", "Equal"] {
             for x in &vals {
                 for y in &vals {
@@ -624,9 +636,10 @@ fn arithmetic_chains(e: &mut Vec<Entry>) {
                         };
                         for swap in [false, true] {
                             let ins: [&str; 2] = if swap { ["b", "a"] } else { ["a", "b"] };
+                            let (ls, rs): (&[usize], &[usize]) = if swap { (&bs, &[la]) } else { (&[la], &bs) };
                             sink(Case::new(
                                 "constant folding vectors",
-                                if fl { "float constant operands" } else { "int constant operands" },
+                                binary_feature(op, ls, rs, if fl { "float constant operands" } else { "int constant operands" }),
                                 vec![n(op, &ins, &["y"])],
                                 vec![ta.clone().as_init(), tb.clone().as_init()],
                             ));
@@ -650,7 +663,7 @@ fn arithmetic_chains(e: &mut Vec<Entry>) {
                         let k = TIn::ints("k", dtype::INT64, &cond_shape, &(0..cc).map(|i| (cbase + i as i64) % 2).collect::<Vec<_>>()).as_init();
                         let one = TIn::scalar_i64("one", 1).as_init();
                         let nodes = vec![n("Equal", &["k", "one"], &["c"]), n("Where", &["c", "p", "q"], &["w"])];
-                        sink(Case::new("Where with constant inputs", "constant condition and branches", nodes, vec![k, one, mk("p", &x_shape, 10), mk("q", &y_shape, 20)]));
+                        sink(Case::new("Where with constant inputs", "general", nodes, vec![k, one, mk("p", &x_shape, 10), mk("q", &y_shape, 20)]));
                     }
                 }
             }
@@ -1002,11 +1015,14 @@ fn index_ops(e: &mut Vec<Entry>) {
                     for step in [None, Some(1i64), Some(2), Some(-1), Some(-2)] {
                         for axes in [None, Some(0i64), Some(-1)] {
                             for (init, mode) in value_modes() {
-                                let feat = format!(
-                                    "{mode}; {}{}",
-                                    if axes.is_none() && step.is_some() { "axes omitted but steps given; " } else { "" },
-                                    slice_feature(d, *st, *en, step.unwrap_or(1))
-                                );
+                                // With `axes` omitted and `steps` present, the in-place
+                                // execution path re-packs its inputs; that class gets one
+                                // feature of its own whatever the bounds are.
+                                let feat = if axes.is_none() && step.is_some() {
+                                    format!("{mode}; axes omitted but steps given")
+                                } else {
+                                    format!("{mode}; {}", slice_feature(d, *st, *en, step.unwrap_or(1)))
+                                };
                                 let feat = feat.as_str();
                                 let mut ins = vec![TIn::f32("x", &[d]), vin("st", &[*st], init), vin("en", &[*en], init)];
                                 let mut names = vec!["x", "st", "en"];
